@@ -3,6 +3,7 @@ C09 — Pattern search reports exactly the occurrences, in order.
 -/
 import Sqroot.Proofs.Search
 import Sqroot.Proofs.EndToEnd
+import Sqroot.Proofs.FindEndToEnd
 namespace Sqroot.Props.C09
 open Sqroot.Model Sqroot.Proofs
 
@@ -77,5 +78,34 @@ theorem findFirstN_end_to_end (c : MemoCfg) (m : Memo) (b v : Val3) (chain : Lis
     Sqroot.Proofs.findFirstN_end_to_end c m b v chain pat hp n bound hn hb hv hfit (m.maxLength : Int)
       (by unfold DemandLe; omega)
   exact ⟨m', cnt, h⟩
+
+/-- end to end (v3 `FindAll` on any FINITE view of `size` digits of any Number): the view's full
+traversal over the memoizer feeding the automaton reports exactly the occurrences inside the
+view's window, ascending, as absolute positions (every position for the empty pattern) -/
+theorem findAll_end_to_end (c : MemoCfg) (m : Memo) (b v : Val3) (chain : List ViewOp)
+    (pat : List Int) (size : Nat)
+    (hb : IsBase3 b) (hv : applyChain3 b chain = some v) (hfin : v.assertsFiniteSeq = true)
+    (hsize : Spec.windowSize m.src.len (Spec.winOf (chain.map toSpecOp)) = some size)
+    (hfit : Fits c m.src (Spec.winOf (chain.map toSpecOp)) (size + 1)) :
+    let w := Spec.winOf (chain.map toSpecOp)
+    let T : List Int := (Spec.windowList m.src.len m.src.digit w size).map fun x => (x.2 : Int)
+    ∃ m', findAll3 c m v pat size
+        = some (.ok (m', if pat = [] then (List.range T.length).map (shiftPos (max w.lo 0))
+                         else (Spec.occurrences pat T).map (shiftPos (max w.lo 0)))) :=
+  Sqroot.Proofs.findAll_end_to_end c m b v chain pat size hb hv hfin hsize hfit
+
+/-- end to end (v3 `FindLastN`, `FindLast` for n = 1, on any finite view): the last n occurrences,
+descending; none for n = 0 -/
+theorem findLastN_end_to_end (c : MemoCfg) (m : Memo) (b v : Val3) (chain : List ViewOp)
+    (pat : List Int) (n size : Nat)
+    (hb : IsBase3 b) (hv : applyChain3 b chain = some v) (hfin : v.assertsFiniteSeq = true)
+    (hsize : Spec.windowSize m.src.len (Spec.winOf (chain.map toSpecOp)) = some size)
+    (hfit : Fits c m.src (Spec.winOf (chain.map toSpecOp)) (size + 1)) :
+    let w := Spec.winOf (chain.map toSpecOp)
+    let T : List Int := (Spec.windowList m.src.len m.src.digit w size).map fun x => (x.2 : Int)
+    ∃ m', findLastN3 c m v pat n size
+        = some (.ok (m', ((if pat = [] then (List.range T.length).map (shiftPos (max w.lo 0))
+                           else (Spec.occurrences pat T).map (shiftPos (max w.lo 0))).reverse).take n)) :=
+  Sqroot.Proofs.findLastN_end_to_end c m b v chain pat n size hb hv hfin hsize hfit
 
 end Sqroot.Props.C09
